@@ -6,7 +6,7 @@ nested compile() calls made from traced bodies; invariants Restored / StepsResto
 MockedInside / Untouched / OldIsInitOrMock are model-checked by TLC over all sessions.
 Binding (spec -> code): every complete session printed by TLC (placement of <= 3 comptime
 functions in one or two modules, user bindings of int/float/len, one body script per function
-with a fault before/after its call or a wrong return value, <= 3 top-level compile() calls) is
+with a fault (Python exception, Guppy error, KeyboardInterrupt) before/after its call or a wrong return value, <= 3 top-level compile() calls) is
 generated as real modules and executed; after every top-level compile() the module __dict__
 snapshots (names, object identities, order; plus the builtins module) are compared with the
 initial ones as the spec demands, the outcome class with the spec's, and the classification of
@@ -132,7 +132,7 @@ def run(ctx):
     consume(sim)
     ctx.log(f"simulation: {len(sessions)} emitted, {len(uniq)} distinct, {len(sim)} replayed")
 
-    need = ("ok", "py", "guppy", "bad_return")
+    need = ("ok", "py", "guppy", "intr", "bad_return")
     if any(acc["outcomes"].get(k, 0) == 0 for k in need) or not (acc["with_nested_compile"] and acc["user_bound"] and acc["bound_to_none_or_zero"]
                                                                   and acc["steps_with_two_modules_mocked"]):
         raise lib.Machinery(f"vacuous enumeration: {acc}")
@@ -157,8 +157,8 @@ def run(ctx):
         "samples": samples,
         "exhaustive": True,
         "bounds": (f"exhaustive: {nexh} sessions of {cfg} (2 functions, 2 modules, "
-                   + ("3 binding sets/module (values: own object, None, 0), 4 fault kinds, 1 compile" if ctx.quick else
-                      "4 binding sets/module (values: own object, None, 0), 6 fault kinds, 2 compiles")
+                   + ("3 binding sets/module (values: own object, None, 0), 5 fault kinds incl. KeyboardInterrupt, 1 compile" if ctx.quick else
+                      "4 binding sets/module (values: own object, None, 0), 8 fault kinds incl. KeyboardInterrupt, 2 compiles")
                    + f"); plus {len(sim)} random sessions with 3 functions, all 4^3 bindings per module (absent / own object / None / 0), 3 compiles (seed {ctx.seed + 1})"),
         "session_stats": acc,
         "mismatching_sessions": len(allbad),
